@@ -464,64 +464,75 @@ def r_iter_views(ctx, db, est, ln, consts=None):
 
 
 def r_views_special_values(ctx, db, est, ln, consts=None):
-    """widths() and centers() on a concrete edge vector with infinite outer edges (documented as legal
-    for from_ranges): the values are evaluated with IEEE semantics — (-inf + x)/2 = -inf,
-    inf - x = inf — which the real-number comparison of R-LAW L8 cannot see"""
+    """widths(), centers() and normalized_bins() on concrete edge vectors that the real-number comparison
+    of R-LAW L8 cannot see: infinite outer edges (documented as legal for from_ranges; (-inf + x)/2 = -inf,
+    inf - x = inf) and a bin of subnormal width (1/width overflows although count/width need not).  The
+    views are evaluated with IEEE semantics on constants and compared with C13's formulas."""
     import math
-    TR = "traits::Histogram"
     if ln < 1:
         return
-    edges = [-math.inf] + [float(2 * i - ln) for i in range(1, ln)] + [math.inf]
-    for name, spec in (("widths", lambda a, b: b - a), ("centers", lambda a, b: 0.5 * (a + b))):
-        gp = est.m(name, None) or est.m(name, TR) or ((TR + "::" + name) if (TR + "::" + name) in db.fns else None)
-        if gp is None:
-            continue
+    vectors = [("infinite-outer-edges", [-math.inf] + [float(2 * i - ln) for i in range(1, ln)] + [math.inf]),
+               ("subnormal-width", [0.0, 4e-309] + [float(i) for i in range(1, ln)])]
+    counts = [(3 * j) % 4 for j in range(ln)]          # concrete counts, the first bin empty
+    specs = (("widths", lambda a, b, c: b - a), ("centers", lambda a, b, c: 0.5 * (a + b)),
+             ("normalized_bins", lambda a, b, c: float(c) / (b - a)))
+    for vname, edges in vectors:
+        for name, spec in specs:
+            _special_view(ctx, db, est, ln, consts, vname, edges, counts, name, spec)
 
-        def setup(m, gp=gp):
-            a, ea, ba, rng, bn = hist_state(m, est, "self")
-            fs = {n_: x for n_, x in zip(a.v.names, a.v.fields)}
-            fs[rng].elems[:] = [F.lit(e) for e in edges]
-            ref = VRef(a, (), False)
-            import summaries as S
-            nref = {"fn": "core::iter::traits::iterator::Iterator::next", "trait": "core::iter::traits::iterator::Iterator", "name": "next"}
 
-            def thunk():
-                cell = Cell(call(m, gp, [ref]))
-                out = []
-                for _ in range(ln + 1):
-                    o = S.iter_next(m, nref, [VRef(cell, (), True)], None, None)
-                    if o.variant == 0:
-                        break
-                    out.append(o.fields[0])
-                return out
-            return thunk, {}
-        paths, stats = explore(db, setup, Config(release=True, finite=False, fold_inexact=True, consts=consts or {}), 64)
-        ctx.count_run(Run(gp, paths, stats, "special-" + name))
-        key = "L8:%s:infinite-outer-edges:LEN=%d" % (name, ln)
-        for p in paths:
-            if p.status != "return":
-                if p.status == "panic" and is_debug_only(p.info.get("span") or {}):
-                    continue
-                ctx.ob("R-LAW", key, gp, R.fn_site(db, gp), False, "%s() on edges %s: %s %s" % (name, edges, p.status, p.info.get("kind") or p.info.get("why")),
-                       inc=p.status == "inconclusive", d7=False)
+def _special_view(ctx, db, est, ln, consts, vname, edges, counts, name, spec):
+    TR = "traits::Histogram"
+    gp = est.m(name, None) or est.m(name, TR) or ((TR + "::" + name) if (TR + "::" + name) in db.fns else None)
+    if gp is None:
+        return
+
+    def setup(m):
+        a, ea, ba, rng, bn = hist_state(m, est, "self")
+        fs = {n_: x for n_, x in zip(a.v.names, a.v.fields)}
+        fs[rng].elems[:] = [F.lit(e) for e in edges]
+        fs[bn].elems[:] = list(counts)
+        ref = VRef(a, (), False)
+        import summaries as S
+        nref = {"fn": "core::iter::traits::iterator::Iterator::next", "trait": "core::iter::traits::iterator::Iterator", "name": "next"}
+
+        def thunk():
+            cell = Cell(call(m, gp, [ref]))
+            out = []
+            for _ in range(ln + 1):
+                o = S.iter_next(m, nref, [VRef(cell, (), True)], None, None)
+                if o.variant == 0:
+                    break
+                out.append(o.fields[0])
+            return out
+        return thunk, {}
+    paths, stats = explore(db, setup, Config(release=True, finite=False, fold_inexact=True, consts=consts or {}), 64)
+    ctx.count_run(Run(gp, paths, stats, "special-" + name))
+    key = "L8:%s:%s:LEN=%d" % (name, vname, ln)
+    for p in paths:
+        if p.status != "return":
+            if p.status == "panic" and is_debug_only(p.info.get("span") or {}):
                 continue
-            vals = p.ret
-            want = [spec(edges[j], edges[j + 1]) for j in range(ln)]
-            bad = None
-            if len(vals) != ln:
-                bad = "%d values" % len(vals)
-            else:
-                for j, (v, w) in enumerate(zip(vals, want)):
-                    if not (is_float(v) and F.is_lit(v)):
-                        bad = "bin %d: %s is not a constant" % (j, show_val(v)[:60])
-                        break
-                    x = F.litval(v)
-                    if not ((x != x and w != w) or x == w):
-                        bad = "bin %d: %r, C13's formula gives %r" % (j, x, w)
-                        break
-            ctx.ob("R-LAW", key, gp, R.fn_site(db, gp), bad is None,
-                   "%s() on edges %s equals the formula evaluated in IEEE arithmetic" % (name, edges) if bad is None else
-                   "%s() on edges %s: %s" % (name, edges, bad), d7=False)
+            ctx.ob("R-LAW", key, gp, R.fn_site(db, gp), False, "%s() on edges %s: %s %s" % (name, edges, p.status, p.info.get("kind") or p.info.get("why")),
+                   inc=p.status == "inconclusive", d7=False)
+            continue
+        vals = p.ret
+        want = [spec(edges[j], edges[j + 1], counts[j]) for j in range(ln)]
+        bad = None
+        if len(vals) != ln:
+            bad = "%d values" % len(vals)
+        else:
+            for j, (v, w) in enumerate(zip(vals, want)):
+                if not (is_float(v) and F.is_lit(v)):
+                    bad = "bin %d: %s is not a constant" % (j, show_val(v)[:60])
+                    break
+                x = F.litval(v)
+                if not ((x != x and w != w) or x == w):
+                    bad = "bin %d: %r, C13's formula gives %r" % (j, x, w)
+                    break
+        ctx.ob("R-LAW", key, gp, R.fn_site(db, gp), bad is None,
+               "%s() on edges %s with counts %s equals the formula evaluated in IEEE arithmetic" % (name, edges, counts) if bad is None else
+               "%s() on edges %s with counts %s: %s" % (name, edges, counts, bad), d7=False)
 
 
 def r_hist_clone(ctx, db, est, ln, consts=None):
@@ -667,9 +678,22 @@ def r_bin_variance_range(ctx, db, est, ln, consts=None):
     if vp is None:
         return
     for j in range(ln):
-        m = Machine(db, [], Config(release=True, consts=consts or {}))
-        a, ea, ba, rng, bn = hist_state(m, est, "self")
-        v = call(m, vp, [VRef(a, (), False), j])
+        box = {}
+
+        def setup(m, j=j):
+            a, ea, ba, rng, bn = hist_state(m, est, "self")
+            box["ba"] = ba
+            return (lambda: call(m, vp, [VRef(a, (), False), j])), {}
+        paths, stats = explore(db, setup, Config(release=True, consts=consts or {}), 16)
+        ctx.count_run(Run(vp, paths, stats, "bin-variance"))
+        rets = [p for p in paths if p.status == "return" and is_float(p.ret)]
+        if not rets:
+            ctx.ob("R-SIGN", "bin-variance-range:LEN=%d:bin=%d" % (ln, j), vp, R.fn_site(db, vp), False,
+                   "variance(%d) has no returning path with a float result: %s" % (j, [(p.status, (p.info or {}).get("kind") or (p.info or {}).get("why")) for p in paths][:3]), inc=True)
+            continue
+        # the path with the fewest assumptions is the general one (others: integer division by an empty total etc.)
+        pth = min(rets, key=lambda p: len(p.pc))
+        m, v, ba = pth.machine, pth.ret, box["ba"]
         cv = d7.Conv(positive=lambda n: True, machine=m)
         e = sp.cancel(sp.together(cv.conv(v)))
         c = cv.conv(F.i2f(ba[j]))
